@@ -51,6 +51,7 @@ static uint64_t arena_hash_prev;
 static int failed; static char fail_msg[512];
 static unsigned long nonseqcst;
 
+int sx_only_abort;
 int sx_self(void) { return cur; }
 int sx_failed(void) { return failed; }
 const char *sx_last_msg(void) { return fail_msg; }
@@ -58,6 +59,7 @@ void sx_fail(const char *fmt, ...)
 {
     va_list ap;
     if (failed) return;
+    if (sx_only_abort && strncmp(fmt, "abort()", 7) != 0) return;      /* serving the no-abort half of C20: every other oracle belongs to C06 */
     va_start(ap, fmt); vsnprintf(fail_msg, sizeof fail_msg, fmt, ap); va_end(ap);
     failed = 1;
 }
